@@ -3,12 +3,6 @@ import OrdModel.Proofs.BuilderFull5
 namespace Ord.Builder
 open Ord Ord.Outcome
 
-/-- stages 5–7 of `build_transaction` -/
-def tail567 (env : Env) (w : Wallet) (r : Request) (s4 : St) : Outcome Tx := do
-  let s5 ← stripValue env w r s4
-  let s6 ← deductFee env w r s5
-  buildFinal env w r s6
-
 theorem tail567_ok {env : Env} {w : Wallet} {r : Request} {s4 : St} {amount : Nat}
     (g : Good w r s4) (hnd : (w.amounts.map (·.1)).Nodup) (htot : walletTotal w < U64)
     (ha : w.amounts.lookup r.outgoing.1 = some amount) (hoff : r.outgoing.2 < amount)
@@ -151,25 +145,6 @@ theorem tail567_ok {env : Env} {w : Wallet} {r : Request} {s4 : St} {amount : Na
 end Ord.Builder
 
 namespace Ord.Builder
-
-/-- the nine fields of `Cond`, decided, in declaration order: `[strip_no_overflow,
-slop_no_overflow, fee_lt_value, change_pays_fee, target_pos, postage_cap, value_reached,
-value_not_above, no_dust]` -/
-def condBits (env : Env) (r : Request) (n : Nat) (pre : List TxOut) (R : Nat) (c : Script) : List Bool :=
-  [ decide (env.fee (vsize n (pre ++ [(r.recipient, R)])) ≤ R →
-      R - env.fee (vsize n (pre ++ [(r.recipient, R)])) > (maxTarget r.target).1 →
-      env.dust c + env.fee (vsize n (pre ++ [(r.recipient, R)]) + ADDITIONAL_OUTPUT_VBYTES) < U64),
-    decide ((match r.target with
-      | .postage => MAX_POSTAGE
-      | .exact p => p
-      | .value _ => max (env.dust r.change0) (env.dust r.change1)) + env.fee ADDITIONAL_OUTPUT_VBYTES < U64),
-    decide (feeFinal env r n pre R c < R),
-    decide (strips env r n pre R c → feeFinal env r n pre R c ≤ R - (maxTarget r.target).2),
-    decide (strips env r n pre R c → 0 < (maxTarget r.target).2),
-    decide (¬ strips env r n pre R c → CapOk env r (R - feeFinal env r n pre R c)),
-    decide (¬ strips env r n pre R c → ReachOk r (R - feeFinal env r n pre R c)),
-    decide (¬ strips env r n pre R c → NotAboveOk env r (R - feeFinal env r n pre R c)),
-    decide (∀ o ∈ finalOuts env r n pre R c, env.dust o.1 ≤ o.2) ]
 
 theorem cond_iff_bits (env : Env) (r : Request) (n : Nat) (pre : List TxOut) (R : Nat) (c : Script) :
     Cond env r n pre R c ↔ condBits env r n pre R c = List.replicate 9 true := by
